@@ -163,21 +163,7 @@ func execCluster(run *core.Run, p *plan) {
 		}
 		return nil
 	})
-	if p.RaftSnap > 0 {
-		verifhook.SetKnob("meta.raft.snapshot_threshold", int64(p.RaftSnap))
-		// Enough trailing entries for a follower to keep the entry a snapshot
-		// ends at: with fewer, a node that was cut off as leader (it holds an
-		// uncommitted entry beyond the snapshot's index) and then gets that
-		// snapshot installed cannot compare the previous entry of the next
-		// AppendEntries (hashicorp/raft 1.3.11 looks only at its log, not at
-		// its snapshot) and is sent the snapshot over and over - a livelock of
-		// the library that needs a snapshot newer than a follower's own log
-		// tail by less than the trailing window, which raft's shipped 10240
-		// trailing entries rule out.
-		verifhook.SetKnob("meta.raft.trailing_logs", 8)
-		verifhook.SetKnob("meta.raft.snapshot_interval", int64(2*time.Second))
-		defer verifhook.ClearKnobs()
-	}
+	defer verifhook.ClearKnobs()
 	verifhook.SetPoint(func(ev string, args ...interface{}) {
 		switch ev {
 		case "meta.fsm.snapshot":
@@ -258,6 +244,35 @@ func execCluster(run *core.Run, p *plan) {
 		if !ok {
 			run.Fail("harness-error", "", "join of meta node %d failed: %s", i, last)
 			return
+		}
+	}
+	// Raft's snapshot knobs take effect when a node opens its raft state. The
+	// cluster is formed with raft's own settings and then restarted node by
+	// node with the small ones: the join handler holds the store's read lock
+	// while it waits for raft to commit the new voter over the (1 ms) network,
+	// and a state-machine snapshot waiting for the write lock meanwhile is not
+	// a durable wait in a synctest bubble - simulated time, and with it the
+	// network, would stand still.
+	if p.RaftSnap > 0 {
+		verifhook.SetKnob("meta.raft.snapshot_threshold", int64(p.RaftSnap))
+		// Enough trailing entries for a follower to keep the entry a snapshot
+		// ends at: with fewer, a node that was cut off as leader (it holds an
+		// uncommitted entry beyond the snapshot's index) and then gets that
+		// snapshot installed cannot compare the previous entry of the next
+		// AppendEntries (hashicorp/raft 1.3.11 looks only at its log, not at
+		// its snapshot) and is sent the snapshot over and over - a livelock of
+		// the library that needs a snapshot newer than a follower's own log
+		// tail by less than the trailing window, which raft's shipped 10240
+		// trailing entries rule out.
+		verifhook.SetKnob("meta.raft.trailing_logs", 8)
+		verifhook.SetKnob("meta.raft.snapshot_interval", int64(2*time.Second))
+		for _, n := range c.nodes {
+			c.stop(n)
+			if err := c.start(n); err != nil {
+				run.Fail("meta-node-does-not-restart", "", "meta node %d does not start again from its own state: %v", n.id, err)
+				return
+			}
+			time.Sleep(3 * time.Second)
 		}
 	}
 	var servers []string
